@@ -90,6 +90,8 @@ pub struct WorkerSummary {
     pub sweep_positions: u64,
     pub max_ops: u64,
     pub ops_total: u64,
+    #[serde(default)]
+    pub other_samples: Vec<String>,
 }
 
 fn add(m: &mut BTreeMap<String, u64>, k: &str, v: u64) {
@@ -293,6 +295,9 @@ fn worker(a: &Args) {
             let mut mine: Vec<&world::Violation> = verdict.violations.iter().filter(|x| x.prop == prop).collect();
             for x in verdict.violations.iter().filter(|x| x.prop != prop) {
                 add(&mut s.other_property_violations, &x.prop, 1);
+                if s.other_samples.len() < 3 {
+                    s.other_samples.push(format!("{} [{}] in {} #{}", x.prop, x.kind, fam.name, i));
+                }
             }
             mine.retain(|x| !minimise::is_known(&known, x, &rep.world));
             if !mine.is_empty() {
@@ -394,6 +399,7 @@ fn check(a: &Args) -> i32 {
             tot.samples.extend(s.samples.iter().cloned().take(1));
         }
         tot.harness_errors.extend(s.harness_errors.iter().cloned());
+        tot.other_samples.extend(s.other_samples.iter().cloned());
         if let Some(v) = &s.violation {
             violations.push(v.clone());
         }
@@ -425,6 +431,12 @@ fn check(a: &Args) -> i32 {
     }
     let fams = families::for_property(&prop);
     let level = families::level_for(&prop);
+    if tot.samples.is_empty() {
+        if let Some(f) = fams.first() {
+            let c = make_case(seed, &prop, f, 0);
+            tot.samples.push(json!({"family": f.name, "run_index": 0, "run_seed": c.run_seed, "strategy": format!("{:?}", c.strategy), "program": &*c.prog}));
+        }
+    }
     let runs_per_hour = if wall > 0.0 { tot.runs as f64 / wall * 3600.0 } else { 0.0 };
     let distinct = hashes.len() as u64;
     let mut harness_fail = !crashed.is_empty() || !tot.harness_errors.is_empty();
@@ -500,6 +512,9 @@ fn check(a: &Args) -> i32 {
     );
     for c in &crashed {
         println!("WORKER-CRASH {}", c);
+    }
+    for o in tot.other_samples.iter().take(6) {
+        println!("  (other property) {}", o);
     }
     if exit == 1 {
         return 1;
